@@ -77,6 +77,17 @@ func (in *Interp) foreign(fn *types.Func, recv Value, x *ast.CallExpr) []Value {
 		return []Value{&StrVal{}}
 	case "strings.TrimPrefix", "strings.ToLower", "strings.ToUpper":
 		return []Value{&StrVal{}}
+	case "math/bits.OnesCount", "math/bits.OnesCount8", "math/bits.OnesCount16", "math/bits.OnesCount32", "math/bits.OnesCount64":
+		args := in.args(x, sig)
+		v, ok := args[0].(*Bits)
+		if !ok {
+			in.fail(x, "OnesCount on %T", args[0])
+		}
+		sum := in.D.Const(0, 64, true)
+		for _, b := range v.Bits() {
+			sum = in.D.AddSub(token.ADD, sum, in.D.Resize(in.D.Bool(b), 64, true))
+		}
+		return []Value{sum}
 	case "crypto/subtle.ConstantTimeCompare":
 		args := in.args(x, sig)
 		a, ok1 := args[0].(*Slice)
